@@ -189,6 +189,32 @@ def build_mt(config="tsan"):
     return build_engine(config, "mt", ["mt.c", "msg.c"])
 
 
+def build_cxxio(config="asan"):
+    """C16 C++ pass: reproc.cpp + the drain/run templates against the real (interposed) C library."""
+    cfg = CONFIGS[config]
+    bdir = os.path.join(BUILD, config)
+    lib = build_lib(config)
+    out = os.path.join(bdir, "cxxio")
+    cpp = os.path.join(REPO, "reproc++/src/reproc.cpp")
+    hpp = sorted(glob.glob(os.path.join(REPO, "reproc++/include/reproc++/*.hpp")) +
+                 glob.glob(os.path.join(REPO, "reproc++/include/reproc++/detail/*.hpp")))
+    harness = os.path.join(SRC, "cxxio.cpp")
+    flags = cfg["cflags"]
+    digest = _hash([cpp, harness, lib, os.path.join(bdir, "wrap.o"), os.path.join(SRC, "common.h")] + hpp, " ".join(flags))
+    stamp = out + ".stamp"
+    if os.path.exists(out) and _stamp_ok(stamp, digest):
+        return out
+    inc = LIB_INC + ["-I" + os.path.join(REPO, "reproc++/include"), "-I" + SRC]
+    o1 = os.path.join(bdir, "cxxio_reproc_cpp.o")
+    run(["g++", "-std=c++11", "-w"] + flags + inc + ["-c", cpp, "-o", o1])
+    o2 = os.path.join(bdir, "cxxio.o")
+    run(["g++", "-std=c++11"] + flags + inc + ["-c", harness, "-o", o2])
+    run(["g++"] + cfg["ldflags"] + [o2, o1, os.path.join(bdir, "wrap.o"), lib, "-o", out + ".tmp", "-lpthread"])
+    os.replace(out + ".tmp", out)
+    open(stamp, "w").write(digest)
+    return out
+
+
 def build_win(config="asan"):
     """C18: the Windows sources compiled on Linux against stubs/windows.h, allocation calls wrapped."""
     cfg = CONFIGS[config]
